@@ -256,7 +256,12 @@ func (r *Run) CpDumpStep(op Op) {
 	nDev := len(r.Devs)
 	r.SyncFeeds()
 	const cpKey = "ck:c11"
-	col, err := w.startFeed(FeedCfg{H: op.H, C: op.C}, sgbucket.FeedResume, true, "ck")
+	backfill := uint64(sgbucket.FeedResume)
+	explicit, _ := op.Arg["explicit"].(bool)
+	if explicit {
+		backfill = 0 // a start CAS given by the caller: the stored checkpoint has no say
+	}
+	col, err := w.startFeed(FeedCfg{H: op.H, C: op.C}, backfill, true, "ck")
 	if err != nil {
 		r.dev("cpdump.start", []string{"C15"}, "StartDCPFeed(resume, dump, checkpoint) on %s failed: %v", w.Cfg.Colls[op.C], err)
 		tr.Outcome = "DEVIATION"
@@ -274,6 +279,9 @@ func (r *Run) CpDumpStep(op Op) {
 		r.cpSeen = map[int]uint64{}
 	}
 	from := r.cpSeen[op.C]
+	if explicit {
+		from = 0
+	}
 	got := map[string]uint64{}
 	for _, ev := range col.take() {
 		if ev.Opcode == sgbucket.FeedOpMutation || ev.Opcode == sgbucket.FeedOpDeletion {
@@ -289,7 +297,11 @@ func (r *Run) CpDumpStep(op Op) {
 			continue
 		}
 		if got[k] != st.Cas {
-			r.dev("cpdump.skipped", []string{"C11", "C15"}, "the resumed checkpointed feed of %s (its earlier runs delivered up to %#x) did not deliver the current version of %q (cas %#x; delivered for the key: %#x)", w.Cfg.Colls[op.C], from, k, st.Cas, got[k])
+			tags := []string{"C11", "C15"}
+			if explicit {
+				tags = []string{"C09", "C11", "C15"} // a backfill from a CAS the caller named
+			}
+			r.dev("cpdump.skipped", tags, "the resumed checkpointed feed of %s (its earlier runs delivered up to %#x) did not deliver the current version of %q (cas %#x; delivered for the key: %#x)", w.Cfg.Colls[op.C], from, k, st.Cas, got[k])
 		}
 	}
 	// the checkpoint document is a document of this collection: account for it
@@ -309,7 +321,7 @@ func (r *Run) CpDumpStep(op Op) {
 }
 
 func genCpDump(rt *rapid.T, r *Run) (Op, bool) {
-	op := Op{K: "CpDump", C: pickColl(rt, r.W, "cpd.coll")}
+	op := Op{K: "CpDump", C: pickColl(rt, r.W, "cpd.coll"), Arg: map[string]any{"explicit": chance(rt, 35, "cpd.explicit")}}
 	if len(r.W.Handles) > 1 {
 		op.H = rapid.IntRange(0, len(r.W.Handles)-1).Draw(rt, "cpd.h")
 	}
@@ -570,6 +582,15 @@ func (r *Run) compareFeed(fi int, f *Collector, evs []sgbucket.FeedEvent) {
 			for _, e := range r.Exp {
 				if !f.covers(e.C) && e.Key == string(ev.Key) && e.St.Cas == ev.Cas {
 					props = []string{"C08", "C11"} // a mutation of a collection this feed does not cover
+				}
+			}
+			for _, ci := range f.colls {
+				if collID(ci) == ev.CollectionID || len(f.colls) == 1 {
+					if st := w.Model.Get(ci, string(ev.Key)); st.Present && ev.RevNo != st.Rev && !f.Cfg.KeysOnly {
+						// an event announcing a revision the document does not have
+						props = append(append([]string{}, props...), "C17")
+					}
+					break
 				}
 			}
 			r.Devs = append(r.Devs, Deviation{Clause: "event.spurious", Props: props, Step: r.step,
